@@ -4,6 +4,7 @@ switches) ; negative controls (each as-is switch must break an invariant) ; R: b
 replayed into BOTH real services side by side (simulation + exhaustive short histories + bootstrap stage) ;
 binding self-test (perturbed expected values must be reported)."""
 import json, os, random, re
+from concurrent.futures import ThreadPoolExecutor
 import vf
 
 PROP = "C31"
@@ -47,12 +48,14 @@ def generate(chk, sd, base, subs, name, simulate=None, depth=None, seed=None):
     return out
 
 
-def replay(sd, ov, behs, tag, env=None):
+def replay(sd, binary, behs, tag, env=None, timeout=2400):
     bf = vf.write_ndjson(os.path.join(sd, "beh_%s.ndjson" % tag), behs)
     out = os.path.join(sd, "replay_%s.json" % tag)
     e = {"VERIF_IN": bf, "VERIF_OUT": out, "VERIF_TMP": sd}
     e.update(env or {})
-    p = vf.run_harness(sd, ov, PKG, TEST, e, expect_out=out, timeout=2400)
+    p = vf.run([binary, "-test.run", "^%s$" % TEST, "-test.timeout", "%ds" % timeout], cwd=sd, env=vf.goenv(e), timeout=timeout + 120)
+    if p.returncode != 0 or not os.path.exists(out):
+        raise vf.NoVerdict("replay harness failed (%s, rc=%d)\n%s\n%s" % (tag, p.returncode, p.stdout[-3000:], p.stderr[-3000:]))
     res = json.load(open(out))
     if res["behaviours"] != len(behs):
         raise vf.NoVerdict("replay %s stopped early: %s of %s\n%s" % (tag, res["behaviours"], len(behs), p.stdout[-2000:]))
@@ -76,39 +79,48 @@ def run():
     with vf.scratch() as sd:
         if os.environ.get("VERIF_REPLAY"):
             return replay_only(chk, sd, os.environ["VERIF_REPLAY"])
+        pool = ThreadPoolExecutor(max_workers=4)     # TLC runs and the Go build overlap (each TLC run is mostly JVM start)
+        ov = vf.make_overlay(sd, HARNESS)
+        binary = os.path.join(sd, "auth.test")
+        fbuild = pool.submit(vf.go_test_compile, ov, PKG, binary)
+
+        def gen_stage(policy):
+            fs = pool.submit(generate, chk, sd, "UserStore_Gen.cfg", {"Policy": '"%s"' % policy, "Depth": "24" if thorough else "20"},
+                             "sim-" + policy, "num=%d" % (1200 if thorough else 120), 26 if thorough else 22, vf.SEED)
+            fx = pool.submit(generate, chk, sd, "UserStore_GenX.cfg", {"Policy": '"%s"' % policy, "Depth": "4" if thorough else "3"},
+                             "exhaustive-" + policy)
+            return fs, fx
+        fgen = {POLICIES[0]: gen_stage(POLICIES[0])}
+        fboot = {pw: pool.submit(generate, chk, sd, "UserStore_GenBoot.cfg", {"DefaultPw": '"%s"' % pw, "Depth": "3" if thorough else "1"},
+                                 "boot-" + (pw or "nopw")) for pw in ("", "secret")}
         # 1. the design: with the consistent switches the three stores agree in every reachable state
-        r = vf.tlc_ok(vf.tlc("UserStore", "UserStore", "UserStore_MC.cfg" if thorough else "UserStore_MCq.cfg", sd,
-                             workers=4, timeout=3000), "UserStore MC")
-        chk.add_tlc(r, "MC consistent design (policy empty)")
+        fmc = [(pool.submit(vf.tlc, "UserStore", "UserStore", "UserStore_MC.cfg" if thorough else "UserStore_MCq.cfg", sd,
+                            workers=4, timeout=3000), "MC consistent design (policy empty)")]
         if thorough:
-            r2 = vf.tlc_ok(vf.tlc("UserStore", "UserStore", "UserStore_MCq_nilonly.cfg", sd, workers=4, timeout=3000),
-                           "UserStore MC nilonly")
-            chk.add_tlc(r2, "MC consistent design (policy nilonly, file store keeps nil and empty apart)")
+            fmc.append((pool.submit(vf.tlc, "UserStore", "UserStore", "UserStore_MCq_nilonly.cfg", sd, workers=4, timeout=3000),
+                        "MC consistent design (policy nilonly, file store keeps nil and empty apart)"))
         # 2. negative controls: every difference found in the tree, put into the model alone, breaks an invariant
-        for cfg, allowed in (("UserStore_MC_asis_nil.cfg", ("SameFuture", "AgreeRead")),
-                             ("UserStore_MC_asis_boot.cfg", ("ReopenKeeps", "AgreeList", "AgreeRead")),
-                             ("UserStore_MC_asis_mask.cfg", ("AgreeList",)),
-                             ("UserStore_MC_asis_bootpw.cfg", ("AgreeRead",))):
-            rn = vf.tlc("UserStore", "UserStore", cfg, sd, workers=2, timeout=900)
+        fneg = [(cfg, allowed, pool.submit(vf.tlc, "UserStore", "UserStore", cfg, sd, workers=2, timeout=900))
+                for cfg, allowed in (("UserStore_MC_asis_nil.cfg", ("SameFuture", "AgreeRead")),
+                                     ("UserStore_MC_asis_boot.cfg", ("ReopenKeeps", "AgreeList", "AgreeRead")),
+                                     ("UserStore_MC_asis_mask.cfg", ("AgreeList",)),
+                                     ("UserStore_MC_asis_bootpw.cfg", ("AgreeRead",)))]
+        for f, name in fmc:
+            chk.add_tlc(vf.tlc_ok(f.result(), name), name)
+        for cfg, allowed, f in fneg:
+            rn = f.result()
             if rn.violated not in allowed:
                 raise vf.NoVerdict("negative control %s did not violate one of %s (%s %s)" % (cfg, allowed, rn.violated, rn.error))
             chk.add_tlc(rn, "negative control %s violates %s" % (cfg, rn.violated), count_states=False)
 
-        ov = vf.make_overlay(sd, HARNESS)
-
         # 3. R: behaviours of the abstract store replayed into both real services
-        def stage(policy):
-            sims = generate(chk, sd, "UserStore_Gen.cfg", {"Policy": '"%s"' % policy, "Depth": "24" if thorough else "20"},
-                            "sim-" + policy, simulate="num=%d" % (1200 if thorough else 120),
-                            depth=26 if thorough else 22, seed=vf.SEED)
-            exh = generate(chk, sd, "UserStore_GenX.cfg", {"Policy": '"%s"' % policy, "Depth": "4" if thorough else "3"},
-                           "exhaustive-" + policy)
-            return sims, exh
-
+        fbuild.result()
         results = {}
         for policy in POLICIES:
-            sims, exh = stage(policy)
-            res = replay(sd, ov, sims + exh, policy, {"VERIF_FRESH": "2"})
+            if policy not in fgen:
+                fgen[policy] = gen_stage(policy)
+            sims, exh = fgen[policy][0].result(), fgen[policy][1].result()
+            res = replay(sd, binary, sims + exh, policy, {"VERIF_FRESH": "2"})
             results[policy] = (res, sims, exh)
             if not keys_of(res):
                 break      # the services conform to every behaviour under this rule
@@ -128,16 +140,16 @@ def run():
             chk.cov["evaluations"] += rr["steps"] * 2
             chk.cov["distinct_nontrivial"] += rr["transitions"]
         chk.cov["replay_act_counts"] = res["act_counts"]
+        chk.cov["replay_ms"] = {p: results[p][0]["elapsed_ms"] for p in results}
         chk.cov["behaviours"] = {"simulated": len(sims), "exhaustive_short": len(exh), "fresh_first_starts": res["fresh_starts"]}
         chk.sample({"kind": "replayed behaviour (calls only)", "calls": [s["call"] for s in sims[0]][:12]})
         chk.sample({"kind": "expected contents after the last step of that behaviour", "st": sims[0][-1]["st"]})
 
         # 4. bootstrap stage: first start from the default credential, both ways of giving it
         for pw in ("", "secret"):
-            boots = generate(chk, sd, "UserStore_GenBoot.cfg", {"DefaultPw": '"%s"' % pw, "Depth": "3" if thorough else "1"},
-                             "boot-" + (pw or "nopw"))
+            boots = fboot[pw].result()
             benv = {"VERIF_FRESH": "1000000", "VERIF_BOOT_OBS": "fine", "VERIF_DEFAULT_PW": pw}
-            rb = replay(sd, ov, boots, "boot_" + (pw or "nopw"), benv)
+            rb = replay(sd, binary, boots, "boot_" + (pw or "nopw"), benv)
             report(chk, rb, "default password %r" % pw, prefix="boot/" + ("pw" if pw else "nopw"), env=benv)
             chk.cov["traces_validated_against_impl"] += rb["behaviours"]
             chk.cov["evaluations"] += rb["steps"] * 2
@@ -145,7 +157,7 @@ def run():
 
         # 5. binding self-test: perturb one expected value (a permission list, a reply, a credential) in a
         #    behaviour the services conform to and require the harness to report exactly that step
-        selftest(chk, sd, ov, res, sims + exh, rng)
+        selftest(chk, sd, binary, res, sims + exh, rng)
 
         chk.cov["rule"] = ("behaviours = TLC simulation of UserStore_Gen (one per trace) + every history of the short exhaustive "
                            "alphabet (BFS of the generator) + bootstrap histories; each step is executed on fileService and on "
@@ -161,9 +173,10 @@ def replay_only(chk, sd, replay_file):
     if not beh:
         raise vf.NoVerdict("replay file has no behaviour")
     ov = vf.make_overlay(sd, HARNESS)
+    binary = vf.go_test_compile(ov, PKG, os.path.join(sd, "auth.test"))
     env = {"VERIF_FRESH": "1"}
     env.update(m.get("env") or {})
-    res = replay(sd, ov, [beh], "one", env)
+    res = replay(sd, binary, [beh], "one", env)
     report(chk, res, "replay file", prefix=m.get("key_prefix"), env=m.get("env"))
     chk.cov["traces_validated_against_impl"] = res["behaviours"]
     chk.cov["evaluations"] = res["steps"] * 2
@@ -179,19 +192,13 @@ def report(chk, res, what, prefix=None, env=None):
             m["env"] = env
         if prefix:
             m["key_prefix"] = prefix
-        field = m["field"]
-        if field == "masks":
-            key = "%s/mask" % m["backend"]
-        else:
-            key = "%s/%s/%s/%s/%s" % (m["backend"], m["act"], m["ctx"] or "-", m["comp"], field)
-        if prefix:
-            key = prefix + "/" + key
+        key = (prefix + "/" if prefix else "") + m["key"]
         chk.violation(key, "%s service differs from the specification (%s) at %s after %s [%s]: spec=%s real=%s (%d occurrences)"
                       % (m["backend"], what, m["path"], m["act"], m["ctx"], m["want"], m["got"],
-                         (res.get("key_counts") or {}).get("%s/%s/%s/%s/%s" % (m["backend"], m["act"], m["ctx"], m["comp"], field), 1)), m)
+                         (res.get("key_counts") or {}).get(m["key"], 1)), m)
 
 
-def selftest(chk, sd, ov, res, behs, rng):
+def selftest(chk, sd, binary, res, behs, rng):
     bad = set(res.get("bad_behaviours") or [])
     good = [b for i, b in enumerate(behs) if i not in bad]
     done = []
@@ -234,7 +241,7 @@ def selftest(chk, sd, ov, res, behs, rng):
         perturbed.append(b); expect.append((c[1], "state", ""))
     if len(perturbed) < 3:
         raise vf.NoVerdict("self-test: no conforming behaviour to perturb (%d candidates)" % len(perturbed))
-    rs = replay(sd, ov, perturbed, "selftest", {"VERIF_FRESH": "0", "VERIF_MAX_PER_KEY": "1000"})
+    rs = replay(sd, binary, perturbed, "selftest", {"VERIF_FRESH": "0", "VERIF_MAX_PER_KEY": "1000"})
     for i, (si, comp, fld) in enumerate(expect):
         hits = [m for m in rs["mismatches"] if m["behaviour"] == i and m["step"] == si and m["comp"] == comp and fld in m["field"]]
         backs = {m["backend"] for m in hits}
